@@ -73,7 +73,7 @@ PROPS = {
     },
     "C05": {
         "level": "other",
-        "verus": [("prettydec", ["from_str"]), ("columns", ["literal:posting_indent", "literal:posting_metadata_indent", "literal:txn_metadata_indent"])],
+        "verus": [("prettydec", ["from_str"]), ("columns", None)],
         "kani": {"quick": [], "thorough": []},
         "family": ("c05", {"quick": [], "thorough": ["thorough"]}),
         "technique": "bounded: a catalogue of entries in the documented syntax is parsed, formatted and parsed again (entries must be ==) and formatted twice (text must not change), each also without a final newline, "
@@ -83,10 +83,12 @@ PROPS = {
                        "catalogue entries (five comment prefixes, account / commodity declarations with alias, note, format and multi-line comments, apply tag / end apply tag, include, 10 transaction headers with "
                        "effective date, clear state, code, wide characters, header note and transaction metadata, 22 posting shapes: clear marks, costs @ / @@, lot price {} / {{}}, lot date and note, parenthesised "
                        "expressions, assertions with and without amount, posting notes and metadata, an over-long account, a tab separator) x {alone, no final newline, CRLF, surrounded by blank lines, followed by a "
-                       "transaction / directive / comment} + the whole catalogue as one file: 534 (thorough 910) texts, three laws each.  Two genuine defects were found and repaired (f1b9942, 0d35137).",
+                       "transaction / directive / comment} + the whole catalogue as one file + accounts of every display width 36..56 in front of six posting tails + 800 (thorough 6,000) random derivations of the grammar in "
+                       "doc/syntax.md (arbitrary sp* / sp+, both date separators, lot parts in any order, nested expressions, every metadata form, CRLF, no final newline): 1,838 (7,494) texts, three laws each.  Six "
+                       "genuine defects were found and repaired (f1b9942, 0d35137, fee6b1e, 8eb4a5e, 84b63e3, 43fdb1f).",
         "units_doc": ["core/src/syntax/pretty_decimal.rs: FromStr for PrettyDecimal (Verus, C07)", "core/src/syntax/display.rs: indent literals (Verus slices, C19)", "core/src/parse/**, core/src/format.rs, core/src/syntax/display.rs: bounded family only"],
-        "assumptions": ["the catalogue is my reading of the documented syntax (README, doc comments of core/src/syntax.rs, testdata); syntax outside it is not exercised"],
-        "bounded": ["c05 family: 534 texts (thorough: 910), three laws each"],
+        "assumptions": ["the catalogue and the random generator follow doc/syntax.md (plus a leading minus on amounts, which every sample uses); a construct the generator never produces is not exercised"],
+        "bounded": ["c05 family: 1,838 texts (thorough: 7,494) incl. 800 (6,000) random derivations of doc/syntax.md seeded by VERIF_SEED, three laws each"],
         "not_decided": ["acceptance of every text in the documented syntax and parse-format-parse for all inputs (bounded family only)"],
     },
     "C06": {
@@ -223,7 +225,7 @@ PROPS = {
                         "assumed (L1): PriceRepository::convert_single returns its argument when it already is in the target commodity, value x rate(records, from, to, date) otherwise, RateNotFound when the table has no rate; "
                         "the cache never changes an answer (entry().or_insert_with(closure) over compute_price_table is outside both verifiers)",
                         "assumed (R25d): Amount::iter yields every commodity of the amount exactly once (tied to the proved Amount::sorted_values by a textual anchor)"],
-        "bounded": ["c10 family: 4 scenarios x scale {1, 2, -3} x T precision {none, 2} x report date {historical, 7 dates} = 168 queries"],
+        "bounded": ["c10 family: 4 scenarios x scale {1, 2, -3} x T precision {none, 2} x report date {historical, 6 dates} x date range {none; for scale 1 also four [start, end) windows} = 392 queries"],
         "not_decided": ["Ledger::balance conversion branches (bounded family only)", "which rate is the right one (C09)", "cli EvalOptions::to_conversion / to_date_range"],
     },
     "C11": {
@@ -242,7 +244,7 @@ PROPS = {
                        "never delivered, sorted matches, dot-files skipped), same balance report; three includes that match nothing must fail.  Include cycles are covered under C06.",
         "units_doc": ["core/src/load.rs: glob_match_options (Verus); Loader::load_impl (textual anchors + bounded family)"],
         "assumptions": ["the glob crate implements MatchOptions as documented", "the family runs on the sandbox's file system (tempfile)"],
-        "bounded": ["c11 family: 6 layouts x 2 file systems + 3 empty-match cases = 14 loads"],
+        "bounded": ["c11 family: 6 layouts x 2 file systems + 2 layouts that deliver a file more than once + 3 empty-match cases = 17 loads"],
         "not_decided": ["Loader::load_impl for all include graphs (bounded family only)", "ProdFileSystem::canonicalize_path / symlinks", "cli flatten command"],
     },
     "C12": {
@@ -278,7 +280,7 @@ PROPS = {
     },
     "C15": {
         "level": "other",
-        "verus": [("rescale", None), ("prettydec", ["from_str"])],
+        "verus": [("rescale", None), ("prettydec", ["from_str"]), ("columns", ["get_column", "callsite:amount_padding", "callsite:balance_padding"])],
         "kani": {"quick": [], "thorough": []},
         "family": ("c15", {"quick": [], "thorough": []}),
         "technique": "bounded: statements imported through the real ImportCmd (what `okane import` prints) are parsed back with okane's own parser and compared field by field with what the importer built; "
